@@ -103,9 +103,10 @@ def real_index(desc_or_lw, well: str):
         rows = desc_or_lw.get("rows", 1)
         cols = desc_or_lw["columns"]
     else:
+        # public attributes only: the monitors must survive refactorings of private state
         vr = desc_or_lw.virtual_rows
-        rows = desc_or_lw._volumes.shape[0]
-        cols = desc_or_lw._volumes.shape[1]
+        rows = 1 if vr is not None else desc_or_lw.n_rows
+        cols = desc_or_lw.n_columns
     if not isinstance(well, str) or len(well) < 2:
         return None
     letter, digits = well[0], well[1:]
@@ -222,10 +223,11 @@ def install(ctx, what=("labware", "worklist")) -> Attachment:
 # Labware hooks
 # ---------------------------------------------------------------------------------------------
 def snapshot(lw):
-    vols = np.array(lw._volumes, dtype=float, copy=True)
+    vols = np.array(lw.volumes, dtype=float, copy=True)
     comp = None
-    if lw._composition is not None:
-        comp = {k: np.array(v, dtype=float, copy=True) for k, v in lw._composition.items()}
+    c = lw.composition
+    if c is not None:
+        comp = {k: np.array(v, dtype=float, copy=True) for k, v in c.items()}
     return vols, comp
 
 
@@ -337,7 +339,7 @@ def _attach_labware(att: Attachment):
                 return orig(self, wells, volumes, label, *a, **kw)
             try:
                 pre, pre_comp = snapshot(self)
-                hist_len = len(self._history)
+                hist_len = len(self.history)
             except Exception:
                 return orig(self, wells, volumes, label, *a, **kw)
             exc = None
@@ -486,10 +488,11 @@ def _attach_labware(att: Attachment):
             )
         # --- history: one entry per accepted direct call, newest == current volumes
         if exc is None:
-            A.hv("one_history_entry_per_call", len(lw._history) == hist_len + 1, det)
+            h_now = lw.history
+            A.hv("one_history_entry_per_call", len(h_now) == hist_len + 1, det)
             A.hv(
                 "newest_entry_is_current",
-                bool(np.array_equal(np.asarray(lw._history[-1]), post, equal_nan=True)),
+                bool(len(h_now) > 0 and np.array_equal(np.asarray(h_now[-1][1]), post, equal_nan=True)),
                 det,
             )
         if A.keep_events:
@@ -535,7 +538,7 @@ def _attach_labware(att: Attachment):
         def volumes_within_physical_bounds(self) -> bool:
             A = _ATT
             if A is not None and A.depth == 0:
-                v = self._volumes
+                v = np.asarray(self.volumes)
                 ok = bool(np.all(v >= 0) and np.all(v <= self.max_volume))
                 A.hv(
                     "inv_volume_bounds",
@@ -547,10 +550,12 @@ def _attach_labware(att: Attachment):
         def parallel_structures_agree(self) -> bool:
             A = _ATT
             if A is not None and A.depth == 0:
-                ok = len(self._history) == len(self._labels) and len(self._history) >= 1
-                ok = ok and all(np.shape(h) == self._volumes.shape for h in self._history[-3:])
-                if self._composition is not None:
-                    ok = ok and all(a.shape == self._volumes.shape for a in self._composition.values())
+                h = self.history
+                shp = np.shape(self.volumes)
+                ok = len(h) >= 1 and all(np.shape(e[1]) == shp for e in h[-3:])
+                c = self.composition
+                if c is not None:
+                    ok = ok and all(np.shape(a) == shp for a in c.values())
                 A.hv("inv_parallel_structures", bool(ok), lambda: {"labware": self.name})
             return True
 
